@@ -137,6 +137,42 @@ theorem C16_wait_wakes_and_returns {target : Nat} {s : St} (h : Reach target s) 
   have hge : s1.p.revision ≥ s1.target := by simp [s1, ht]; exact hreached
   exact ⟨_, Reach.step r1 (Step.sampleReturn s1 rfl hge), rfl, rfl⟩
 
+private theorem wait_err_inv {target : Nat} {s : St} (h : Reach target s) :
+    s.target = target ∧ (∀ c l, s.wt = .returned c l true → s.ctxDone = true ∧ c < s.target) ∧
+      (∀ c l w, s.wt = .sampled c l w → c < s.target) := by
+  induction h with
+  | init => exact ⟨rfl, fun c l h => by simp at h, fun c l w h => by simp at h⟩
+  | @step s t hr hs ih =>
+    obtain ⟨ht, h1, h2⟩ := ih
+    cases hs with
+    | update rev lw => exact ⟨ht, h1, h2⟩
+    | sampleReturn h hge =>
+      exact ⟨ht, fun c l he => by simp at he, fun c l w he => by simp at he⟩
+    | sampleWait h hlt =>
+      refine ⟨ht, fun c l he => by simp at he, ?_⟩
+      intro c l w he
+      simp only [Waiter.sampled.injEq] at he
+      obtain ⟨rfl, _, _⟩ := he
+      exact hlt
+    | wake c l w h hc =>
+      exact ⟨ht, fun c' l' he => by simp at he, fun c' l' w' he => by simp at he⟩
+    | ctxReturn c l w h hd =>
+      refine ⟨ht, ?_, fun c' l' w' he => by simp at he⟩
+      intro c' l' he
+      simp only [Waiter.returned.injEq] at he
+      obtain ⟨rfl, _, _⟩ := he
+      exact ⟨hd, h2 c l w h⟩
+    | cancel =>
+      exact ⟨ht, fun c l he => ⟨rfl, (h1 c l he).2⟩, h2⟩
+
+/-- **An error only when the context has ended**: `wait` reports an error in no other case, and
+    then hands back the pair it sampled last (below the target) -/
+theorem C16_wait_error_only_after_ctx_done {target : Nat} {s : St} (h : Reach target s) (cur lw : Nat)
+    (hr : s.wt = .returned cur lw true) : s.ctxDone = true ∧ cur < target := by
+  obtain ⟨ht, h1, _⟩ := wait_err_inv h
+  have := h1 cur lw hr
+  exact ⟨this.1, ht ▸ this.2⟩
+
 /-- the published revision never goes back; the low-watermark is the last one published -/
 theorem C16_wait_progress_monotone (p : Tracker) (rev lw : Nat) :
     p.revision ≤ (p.update rev lw).revision ∧ (p.update rev lw).lw = lw ∧
